@@ -58,7 +58,7 @@ theorem C04_no_overstep {s : St} {a : Sp} (h : Rel s a) (op : Op) (hal : Allowed
     falls back to exactly one such computation, `reset_index` loads it once and publishes that very value, an advance publishes the
     iterator's own new index, and the three formulas are the ring distances the order invariant needs
     (producer: distance to the consumer behind it minus the one slot that stays free). -/
-theorem C04_source_availability_formulas (p l L : Nat) (hL : 0 < L) :
+theorem C04_source_availability_formulas (p l L : Nat) (hL : 0 < L) (hL63 : L < 2 ^ 63) :
     Gen.skelProdAvailable = [⟨.succIndex, .none⟩] ∧ Gen.skelWorkAvailable = [⟨.succIndex, .none⟩] ∧
     Gen.skelConsAvailable = [⟨.succIndex, .none⟩] ∧ Gen.skelCheck = [⟨.available', .none⟩] ∧
     Gen.skelConsReset.map (·.name) = [.succIndex, .setAtomicIndex] ∧ Gen.skelWorkReset.map (·.name) = [.succIndex, .setAtomicIndex] ∧
@@ -66,8 +66,8 @@ theorem C04_source_availability_formulas (p l L : Nat) (hL : 0 < L) :
     (l ≤ p → p - l < L → Gen.prodAvail.ret (p % L) 0 (l % L) L 0 0 = l + (L - 1) - p) ∧
     (p ≤ l → l - p < L → Gen.workAvail.ret (p % L) 0 (l % L) L 0 0 = l - p) ∧
     (p ≤ l → l - p < L → Gen.consAvail.ret (p % L) 0 (l % L) L 0 0 = l - p) :=
-  ⟨rfl, rfl, rfl, rfl, rfl, rfl, rfl, fun h1 h2 => Gen.prodAvail_ret_eq p l L hL h1 h2 0 0 0,
-   fun h1 h2 => Gen.workAvail_ret_eq p l L hL h1 h2 0 0 0, fun h1 h2 => Gen.consAvail_ret_eq p l L hL h1 h2 0 0 0⟩
+  ⟨rfl, rfl, rfl, rfl, rfl, rfl, rfl, fun h1 h2 => Gen.prodAvail_ret_eq p l L hL hL63 h1 h2 0 0 0,
+   fun h1 h2 => Gen.workAvail_ret_eq p l L hL hL63 h1 h2 0 0 0, fun h1 h2 => Gen.consAvail_ret_eq p l L hL hL63 h1 h2 0 0 0⟩
 
 /-- `advance_local` wraps exactly once at `len`, for every `(index, count, len)` with `count ≤ len`, and none of
     its unchecked operations can overflow. -/
